@@ -448,10 +448,22 @@ func newNames(cur, voc *Vocab) (map[string]map[string]bool, map[string]map[strin
 				pair(rn[0], ro[0])
 			}
 		}
+		// names of the closures the reference tree has in this package
+		closureName := map[string]bool{}
+		for _, cl := range voc.Closures[pk] {
+			for _, c := range cl {
+				closureName[c] = true
+			}
+		}
 		for _, n := range names {
 			if !ks[n] {
 				if sg := cur.Sigs[pk+"|"+n]; sg != "" && goneSigs[sg] > 0 {
 					goneSigs[sg]-- // a rename of a known function: not a new helper
+					continue
+				}
+				if closureName[n] && strings.Contains(cur.Sigs[pk+"|"+n], "func(") {
+					// a closure of the reference tree moved to package level, taking what it captured as function-valued
+					// parameters: it stays a function (inlining it would bury the code the rules look for inside its caller)
 					continue
 				}
 				if nf[pk] == nil {
